@@ -102,9 +102,9 @@ func (f fails) add(key, format string, a ...interface{}) {
 
 var oracleKeys = map[string][]string{
 	"docx": {"body-order", "table-after-multipara-table", "inline-order", "hyperlink-text-lost", "ins-text-lost", "sdt-text-lost",
-		"text-lost", "heading-level", "style-chain-heading-level", "list-nesting", "grid-cell", "merged-cell", "header-leak",
+		"text-lost", "list-item-lost", "heading-level", "style-chain-heading-level", "list-nesting", "grid-cell", "merged-cell", "header-leak",
 		"parsed-grid-shape", "parsed-grid-span", "parsed-grid-continuation"},
-	"odt": {"body-order", "span-text-order", "inline-element-lost", "link-text-lost", "nested-span-text-lost", "text-lost",
+	"odt": {"body-order", "span-text-order", "inline-element-lost", "link-text-lost", "nested-span-text-lost", "text-lost", "list-item-lost",
 		"heading-level", "style-chain-heading-level", "list-nesting", "grid-cell", "merged-cell", "header-leak",
 		"parsed-grid-shape", "parsed-grid-span", "parsed-grid-continuation"},
 }
@@ -216,11 +216,16 @@ func evaluate(d *ldoc, out outputs) fails {
 			toks = bl.T.tokens()
 		}
 		j, lost := -1, false
+		whole := itemLost(bl, toks, func(tok string) bool { return find(tok) >= 0 })
 		for _, t := range toks {
 			k := find(t.Tok)
 			if k < 0 {
 				lost = true
-				f.add(lostKey(F, t.Wrap), "Document(): token %q of block %d (%s) is in no element", t.Tok, bi, t.Wrap)
+				if whole {
+					f.add("list-item-lost", "Document(): list item block %d (level %d, text %q) is in no element%s", bi, bl.P.Level, bl.P.wantText(), d.nestNote(bi))
+				} else {
+					f.add(lostKey(F, t.Wrap), "Document(): token %q of block %d (%s) is in no element", t.Tok, bi, t.Wrap)
+				}
 				continue
 			}
 			if j < 0 {
@@ -243,7 +248,9 @@ func evaluate(d *ldoc, out outputs) fails {
 				f.add(bodyKey, "Document(): table block %d landed in a %s element", bi, e.Kind)
 				continue
 			}
-			checkGrid(f, bl.T, e.Tbl, bi)
+			if !bl.T.Undef {
+				checkGrid(f, bl.T, e.Tbl, bi)
+			}
 			continue
 		}
 		p := bl.P
@@ -268,15 +275,15 @@ func evaluate(d *ldoc, out outputs) fails {
 				f.add("heading-level", "Document(): block %d (plain paragraph, style %q) is %s level %d", bi, p.Style, e.Kind, e.Level)
 			}
 		case "li":
-			if e.Kind != "li" || e.Level != p.Level {
-				f.add("list-nesting", "Document(): block %d (list item level %d) is %s level %d", bi, p.Level, e.Kind, e.Level)
+			if e.Kind != "li" || e.Level != p.Level && !p.LevelUndef {
+				f.add("list-nesting", "Document(): block %d (list item level %d%s) is %s level %d", bi, p.Level, p.levelNote(), e.Kind, e.Level)
 			}
 		}
 	}
 	// ---- the reader's parsed tables: every grid position as authored ----
 	if out.HaveParsed {
 		for bi, bl := range d.Blocks {
-			if bl.T == nil {
+			if bl.T == nil || bl.T.Undef {
 				continue
 			}
 			toks := bl.T.tokens()
@@ -309,11 +316,16 @@ func evaluate(d *ldoc, out outputs) fails {
 			}
 			lost := false
 			first := true
+			whole := itemLost(bl, toks, func(tok string) bool { return strings.Contains(o.s, tok) })
 			for _, t := range toks {
 				k := strings.Index(o.s, t.Tok)
 				if k < 0 {
 					lost = true
-					f.add(lostKey(F, t.Wrap), "%s: token %q of block %d (%s) missing", o.name, t.Tok, bi, t.Wrap)
+					if whole {
+						f.add("list-item-lost", "%s: list item block %d (level %d, text %q) missing%s", o.name, bi, bl.P.Level, bl.P.wantText(), d.nestNote(bi))
+					} else {
+						f.add(lostKey(F, t.Wrap), "%s: token %q of block %d (%s) missing", o.name, t.Tok, bi, t.Wrap)
+					}
 					continue
 				}
 				if k <= pos {
@@ -328,7 +340,7 @@ func evaluate(d *ldoc, out outputs) fails {
 				first = false
 				pos = k
 			}
-			if bl.P == nil || lost {
+			if bl.P == nil || lost || len(toks) == 0 {
 				continue
 			}
 			p := bl.P
@@ -357,16 +369,19 @@ func evaluate(d *ldoc, out outputs) fails {
 				case "li":
 					line := lineOf(o.s, toks[0].Tok)
 					ind := strings.Repeat("  ", p.Level)
+					if p.LevelUndef { // no level demanded: a list item line at whatever indentation
+						ind = line[:len(line)-len(strings.TrimLeft(line, " "))]
+					}
 					rest := strings.TrimPrefix(line, ind)
 					if !strings.HasPrefix(line, ind) || !(strings.HasPrefix(rest, "- ") || mdOrdered.MatchString(rest)) {
-						f.add("list-nesting", "%s: block %d (list level %d) rendered as line %q", o.name, bi, p.Level, line)
+						f.add("list-nesting", "%s: block %d (list level %d%s) rendered as line %q", o.name, bi, p.Level, p.levelNote(), line)
 					}
 				case "p":
 					if p.Via != "bigbold" && strings.HasPrefix(lineOf(o.s, toks[0].Tok), "#") {
 						f.add("heading-level", "%s: block %d (plain paragraph) rendered as heading", o.name, bi)
 					}
 				}
-			} else if p.Kind == "li" {
+			} else if p.Kind == "li" && !p.LevelUndef {
 				line := lineOf(o.s, toks[0].Tok)
 				ind := strings.Repeat("  ", p.Level)
 				rest := strings.TrimPrefix(line, ind)
@@ -387,6 +402,63 @@ func evaluate(d *ldoc, out outputs) fails {
 		}
 	}
 	return f
+}
+
+// itemLost: the block is a list item and none of its text - plain text among it, so no
+// inline wrapper is to blame - shows up in the view: the item is lost as a whole.
+func itemLost(bl lblock, toks []ptok, has func(string) bool) bool {
+	if bl.P == nil || bl.P.Kind != "li" {
+		return false
+	}
+	plain := false
+	for _, t := range toks {
+		if has(t.Tok) {
+			return false
+		}
+		plain = plain || t.Wrap == "" || t.Wrap == "span"
+	}
+	return plain
+}
+
+// nestNote says what the list item of block bi is nested below (odt: list items
+// that only wrap the nested list, or an item without text).
+func (d *ldoc) nestNote(bi int) string {
+	p := d.Blocks[bi].P
+	if d.Format != "odt" || p == nil || p.Kind != "li" || p.Level == 0 {
+		return ""
+	}
+	if bi == 0 || d.Blocks[bi-1].P == nil || d.Blocks[bi-1].P.Kind != "li" || d.Blocks[bi-1].P.NumID != p.NumID {
+		return fmt.Sprintf("; the list starts at level %d: the item sits below %d list item(s) without a paragraph of their own", p.Level, p.Level)
+	}
+	for k := bi - 1; k >= 0; k-- {
+		q := d.Blocks[k].P
+		if q == nil || q.Kind != "li" || q.NumID != p.NumID {
+			break
+		}
+		if q.Level < p.Level {
+			switch {
+			case q.Level < p.Level-1:
+				return fmt.Sprintf("; nearest shallower item is at level %d: %d list item(s) without a paragraph of their own in between", q.Level, p.Level-1-q.Level)
+			case q.empty():
+				return "; its parent item has no text"
+			}
+			return ""
+		}
+	}
+	return fmt.Sprintf("; no shallower item before it in the list: it sits below %d list item(s) without a paragraph of their own", p.Level)
+}
+
+// levelNote says how the level of a list item was written when not the plain way.
+func (p *lpara) levelNote() string {
+	switch {
+	case p.LevelUndef:
+		return fmt.Sprintf(", written w:ilvl=%q: outside 0..8, no level demanded", rawAttr(p.RawLevel))
+	case p.RawLevel == "omit":
+		return ", no w:ilvl written"
+	case p.RawLevel != "":
+		return fmt.Sprintf(", written w:ilvl=%q", p.RawLevel)
+	}
+	return ""
 }
 
 func lineOf(s, tok string) string {
